@@ -19,6 +19,8 @@ def main(tier, replay=None):
         # timeout rules on quiescent states of delivery histories (C03/C15 histories with the C16 monitors)
         dict(scn="daemon", name="timeouts-deferred-remote", opts=["monitors=C16", "msgs=r1", "verdicts=KZ", "reorder=1"], bounds="0,0,0,%d" % (2 if q else 3), total=3),
         dict(scn="daemon", name="timeouts-deferred-mixed", opts=["monitors=C16", "msgs=l1r1", "verdicts=KZ", "reorder=1"], bounds="0,0,0,%d" % (2 if q else 3), total=3),
+        dict(scn="daemon", name="remote-concurrency-zero", opts=["monitors=C16", "msgs=l1r1", "verdicts=KZ", "reorder=1", "concr=0", "maxticks=6"], bounds="0,0,0,2", total=2),
+        dict(scn="daemon", name="local-concurrency-zero", opts=["monitors=C16", "msgs=l1r1", "verdicts=KZ", "reorder=1", "concl=0", "maxticks=6"], bounds="0,0,0,2", total=2),
         dict(scn="daemon", name="term-with-held-delivery-and-injection", opts=["monitors=C16", "msgs=l1+r1b", "inject=event", "verdicts=KZ", "reorder=1"], bounds="0,0,0,%d" % (2 if q else 3), total=3),
     ]
     run_families(res, "C16", tier, fams)
@@ -27,7 +29,8 @@ def main(tier, replay=None):
                 "POSIX readdir behaviours), real binaries, clock frozen so the 25-minute rescan cannot hide a lost trigger; oracle at every "
                 "quiescent point: no committed todo entry is left unnoticed; fairness: an identical block of calls repeated around select() "
                 "yields, and is a busy loop when nobody else can run; timeouts-*: histories with deferrals/TERM where every blocking select "
-                "must wake no later than the earliest due time + 1 s")
+                "must wake no later than the earliest due time + 1 s; *-concurrency-zero: the same histories with concurrencyremote / concurrencylocal set to 0 "
+                "(a channel on hold with mail due for it): the daemon must block, not spin")
     res.assumptions = ["virtual kernel FIFO/select semantics as measured on Linux (bin/conformance)", "calls of the three programs that touch neither todo/ nor lock/trigger commute with the other side and are not scheduling points"]
     res.require_nonzero("evaluations", "race_trigger_pulled_during_scan", "race_link_during_scan", "race_trigger_open_ENXIO_during_rearm", "readdir_sees_late_entry", "ticks", "reports_Z")
     res.notes.append("virtual kernel vs Linux: %d operation sequences compared before this run, all agree (bin/conformance)" % nconf)
